@@ -163,6 +163,26 @@ func (s sweepSpec) programs(shard, n int, visit func(stratum string, p Prog)) (t
 		}
 	}
 	if s.PreSuf {
+		// halves that are not expressions of their own (an open group in the prefix, its end in the suffix, stray
+		// parentheses): every raw token sequence of <= 2 tokens on either side
+		var raw []string
+		enumSeq(len(preSufTokens), 2, func(_ int, seq []int) {
+			var sb strings.Builder
+			for _, x := range seq {
+				sb.WriteString(preSufTokens[x])
+			}
+			raw = append(raw, sb.String())
+		})
+		for _, pre := range raw {
+			for _, suf := range raw {
+				if idx%n == shard {
+					visit("P", Prog{Prefix: pre, Suffix: suf, Lines: [][]string{{"ab"}, {"cd"}}})
+				}
+				idx++
+			}
+		}
+	}
+	if s.PreSuf {
 		// the same around whole groups: single entries of <= 3 group tokens, and (prefix, suffix) pairs of <= 2
 		for _, e := range enumEntriesFlags(groupTokens, 3, s.Flags) {
 			if idx%n == shard {
